@@ -66,6 +66,30 @@ class Workdir:
         shutil.rmtree(self.path, ignore_errors=True)
 
 
+def full_modulus_of(calc):
+    """The calculator's static+phonon assembly object (axial strains, static part).  It is a private attribute of the
+    Calculator; found by what it can do rather than by its name, so that a renamed attribute is not a harness failure."""
+    fm = getattr(calc, "_full_modulus", None)
+    if fm is not None and hasattr(fm, "get_axial_strains"):
+        return fm
+    for v in list(vars(calc).values()):
+        if hasattr(v, "get_axial_strains") and hasattr(v, "get_static_modulus"):
+            return v
+    from .core import MachineryError
+    raise MachineryError("the Calculator exposes no object with get_axial_strains/get_static_modulus")
+
+
+def phonon_parts(calc, fm=None):
+    """(isothermal, adiabatic) phonon contributions per key = reported modulus - reported static part (public quantities)."""
+    fm = fm or full_modulus_of(calc)
+    iso, adi = {}, {}
+    for k in calc.modulus_keys:
+        st = numpy.asarray(fm.get_static_modulus(k))[None, :]
+        iso[k] = numpy.asarray(calc.modulus_isothermal[k]) - st
+        adi[k] = numpy.asarray(calc.modulus_adiabatic[k]) - st
+    return iso, adi
+
+
 def oracle_case(ds, calc):
     """The `case` record ThermoOracle/PhononExpectation read, built from the FILE contents (exact model functions) and from the
     quantities the property names as inputs from the QHA layer (P_total, C_V) and the static pressure."""
